@@ -32,6 +32,37 @@ claim("C04", "DESIGN.md 6 C04",
       "a monitor re-evaluates the property on each implementation trace.")
 
 
+
+COMMON = (" The extracted model is run against the real crate (arrays, tuples of every arity, Vec; std / alloc-only / no_std builds) on an exhaustive "
+          "small space plus thousands of random schedules per run (wakes inside polls, stale and repeated wakers, fresh parent wakers, spurious polls, "
+          "early drops, panicking children) and must predict the implementation's trace under the property's projection; a monitor re-evaluates the "
+          "property on every implementation trace. Theorems quantify over all sizes, child behaviours and histories; only the correspondence is sampled.")
+claim("C01", "DESIGN.md 6 C01",
+      "16 theorems: selective strategy - after a Pending return, a child that is awaited, was polled, last answered Pending and whose waker fired implies the newest "
+      "parent waker was woken (join/try_join slice+tuple, merge, zip, FutureGroup, StreamGroup), plus quiescence (no wake outstanding => every awaited child polled and "
+      "unsignalled); non-selective strategy and race/race_ok/chain/wait_until - every waker ever handed out is the parent waker of that poll and firing it wakes that parent. "
+      "Partial: real thread interleavings are represented by the lock windows of the model; the readiness-lock ghost and 'fire never panics' are by construction of the model's total fire function, not separate theorems." + COMMON)
+claim("C02", "DESIGN.md 6 C02",
+      "Ledger theorems over the complete history closed by a drop (any drop point, a panic at any child poll, a poll after completion): every child dropped exactly once, "
+      "every produced value returned xor dropped exactly once - join/try_join, merge, zip, both groups, chain, race. Partial: wait_until and race_ok have no ledger theorem "
+      "(covered by the correspondence and the monitor only); that the unsafe code implements the PollState table is only exercised." + COMMON)
+claim("C03", "DESIGN.md 6 C03",
+      "Trace theorems: no child is polled after Ready / End / its drop event (join family, merge automaton runE, zip, groups chk, race, race_ok runK, chain runC, wait_until); "
+      "polling outside a poll is excluded by the shape of the model's operations and compared position by position." + COMMON)
+claim("C05", "DESIGN.md 6 C05", "C05_try_join: at most one result; Ok = positional vector of the children's own Ok values with nobody failed; Err e = the first failure, returned with it, and the last child poll ever made; C05_ledger: stored values are dropped, not returned." + COMMON)
+claim("C06", "DESIGN.md 6 C06", "C06_race_first_wins (Pr): the winner is the first child seen to resolve, in that poll, which is the last child poll ever made; C06_losers_dropped: the losers are dropped unfinished with the race." + COMMON)
+claim("C07", "DESIGN.md 6 C07", "C07_race_ok_first_success (Pk) for the array, tuple and Vec algorithms: first success wins in that poll; Err only when all n failed, positional aggregate; a failed child is never polled again; zero futures -> empty aggregate." + COMMON)
+claim("C08", "DESIGN.md 6 C08", "C08_merge_exactly_once: per input, the yields with that provenance are exactly the items it produced, in order; nothing else is returned; None iff all inputs ended (zero inputs: first poll, after the fix: commit)." + COMMON)
+claim("C09", "DESIGN.md 6 C09", "C09_zip_rows (Tz): k-th row = k-th items positional; at most one item ahead; None with the first End, which is the last poll; C09_unmatched_dropped: buffered items are dropped, never yielded." + COMMON)
+claim("C10", "DESIGN.md 6 C10", "C10_chain_sequential (Pc): the sequential automaton accepts the poll list (an input is polled only when every earlier one has ended), results = items in order then None." + COMMON)
+claim("C11", "DESIGN.md 6 C11", "Slab refinement + trace theorems for FutureGroup over all histories of insert/remove/reserve/queries/poll/fire: exactly-once with the insert's key, discipline, len/keys/keys-distinct/capacity, None iff empty, ledger, insert never panics. Partial: extend and capacity-monotone are covered by the correspondence only." + COMMON)
+claim("C12", "DESIGN.md 6 C12", "The same theorems for StreamGroup: every item of every member exactly once in member order with its key; a member that ends is dropped in that poll and never polled again; None iff no members remain." + COMMON)
+claim("C16", "DESIGN.md 6 C16", "C16_join/merge/zip/group: in the selective strategy the model never polls a child whose last answer was Pending and whose slot has not fired since (ghost flag g_bad16 stays false for all histories); checked against the std build." + COMMON)
+claim("C17", "DESIGN.md 6 C17", "C17_merge_window: an input whose script is items only and never runs out has provenance in any n consecutive results, whatever the others do (generic fairness lemma of rotating scans)." + COMMON)
+claim("C19", "DESIGN.md 6 C19", "C19_wait_until_gate (Pw): polls are (deadline,Pending)* (deadline,a0) (inner,_)+; results are exactly the inner's non-Pending answers." + COMMON)
+claim("C20", "DESIGN.md 6 C20", "C20_*: after a Pending return with no insertion since, every awaited child has been polled - selective and non-selective strategies, join/try_join, merge, zip, groups. Partial: 'a never-completing child does not block its siblings' second sentence is covered by the selective-polling invariant + correspondence/monitor, not a separate theorem; race/race_ok poll every unfinished child each poll by the shape of their scan." + COMMON)
+P["C04"]["text"] += COMMON
+
 def main():
     checks = []
     na = []
